@@ -298,6 +298,19 @@ def main(tier, seed):
         c14.memoiser(rep, 'callable_cached', 'beartype/_util/cache/utilcachecall.py', 'callable_cached', '_callable_cached', False)
         rep.obls = [dict(o, name=o['name'].replace('C14.', 'C11.memo.')) for o in rep.obls]
     except Exception: rep.error('C11 memoiser: ' + traceback.format_exc()[-1500:])
+    try:
+        # "exceptions raised by the wrapped callable itself propagate unchanged" through the hand-written async relay: the one-step lemma of C08 on
+        # the captured wrapper text (what the inner generator yields, raises or signals by StopAsyncIteration is what the outer one does - the
+        # relay adds no exception of its own, e.g. no RuntimeError from a StopAsyncIteration escaping the wrapper body)
+        from props import c08
+        n0 = len(rep.obls); c08.relay(rep)
+        kept = []
+        for o in rep.obls[n0:]:
+            if 'genexit_athrow_transparent' in o['name']: continue      # generator-protocol fidelity for GeneratorExit thrown by hand: C08's matter (known finding there), no exception leaks
+            kept.append(dict(o, name=o['name'].replace('C08.pep525', 'C11.relay')))
+        rep.obls[n0:] = kept
+        if not kept: rep.error('C11 relay: no obligation')
+    except Exception: rep.error('C11 relay: ' + traceback.format_exc()[-1500:])
     try: malformed(rep, tier)
     except Exception: rep.error('C11 malformed: ' + traceback.format_exc()[-2000:])
     try:
